@@ -291,10 +291,41 @@ def red(fname, elems):
     return ('red', fname, tuple(sorted(elems, key=_key)))
 
 
+def _exact_root(q):
+    """exact rational square root, or None"""
+    import math
+    if q < 0:
+        return None
+    n, d = math.isqrt(q.numerator), math.isqrt(q.denominator)
+    if n * n == q.numerator and d * d == q.denominator:
+        return Fr(n, d)
+    return None
+
+
 def fn(name, *args):
     s = _special(*args)
     if s:
         return s
+    if all(is_num(a) for a in args):
+        # constant folding where the value is exactly representable
+        if name == 'sqrt':
+            if args[0][1] < 0:
+                return NAN
+            r = _exact_root(args[0][1])
+            if r is not None:
+                return ('num', r)
+        elif name in ('trunc', 'floor', 'ceil', 'rint') and len(args) == 1:
+            import math
+            v = args[0][1]
+            return ('num', Fr({'trunc': math.trunc, 'floor': math.floor, 'ceil': math.ceil, 'rint': round}[name](v)))
+        elif name in ('exp',) and args[0][1] == 0:
+            return ('num', Fr(1))
+        elif name in ('sin', 'tan', 'arcsin', 'arctan', 'sinh', 'tanh', 'radians', 'deg2rad', 'degrees', 'rad2deg') and args[0][1] == 0:
+            return ('num', Fr(0))
+        elif name in ('cos', 'cosh') and args[0][1] == 0:
+            return ('num', Fr(1))
+        elif name in ('log', 'log10') and args[0][1] == 1:
+            return ('num', Fr(0))
     return ('fn', name, tuple(args))
 
 
